@@ -1109,6 +1109,12 @@ pub fn run_plan<T: El + PartialEq, S: SEl>(plan: &mut Plan, gen: Option<(Profile
                     }
                 }
                 if let Some((oname, detail)) = bad {
+                    if matches!(oname, "dup-reachable" | "dropped-reachable" | "moved-reachable") {
+                        // C13: a std Vec never exposes a value twice, nor one whose destructor already ran or that was
+                        // handed out — whatever the call did (also after an unwinding destructor), the contents are not
+                        // those of any vector
+                        fail("C13", "dead-or-duplicate-element-reachable", format!("{}{} {}", class, oname, detail));
+                    }
                     fail(prop, "ownership", format!("{}{} {}", class, oname, detail));
                     env.own_checks_off = true; // the ledger is now inconsistent by construction
                 }
